@@ -9,6 +9,7 @@ import (
 	"testing"
 
 	"github.com/imroc/req/v3/internal/verifh"
+	"golang.org/x/text/encoding/ianaindex"
 )
 
 // TestVerif_C15_cfg: settings life-cycle x media-type grid. Real clients run a program of
@@ -21,7 +22,7 @@ func TestVerif_C15_cfg(t *testing.T) {
 		"settings programs over a family of clients: (a) the complete shape [<=2 setter calls on the original] Clone [<=2 setter calls on original or clone] x request by original or clone over the alphabet "+
 			"Disable, Enable, SetAutoDecodeContentType(html), SetAutoDecodeContentType(png,csv), SetAutoDecodeAllContentType, SetAutoDecodeContentTypeFunc(nil), SetAutoDecodeContentTypeFunc(f) (24054 programs; "+
 			"quick tier: a uniform sample), (b) random programs of up to 8 calls with up to 4 clonings (Client.Clone and Transport.Clone, Client and Transport setters, clones of clones). Each program is observed on "+
-			"a grid of 42 responses (media types with parameters, casing, +json/+xml suffixes, charset spellings incl. quoted/empty/duplicate/unknown/utf-8, response Accept-Encoding): which reader "+
+			"a grid of 58 responses (media types with parameters, casing, +json/+xml suffixes, charset spellings incl. quoted/empty/duplicate/unknown/utf-8, response Accept-Encoding): which reader "+
 			"autoDecodeResponseBody installs (raw / header-charset decoder / sniffing reader). non-trivial = the program contains a cloning")
 	r := s.Rand()
 	cnt := c15NewCounter(s)
@@ -77,10 +78,15 @@ func TestVerif_C15_cfg(t *testing.T) {
 	var gridArg []string
 	for _, cell := range c15MediaGrid {
 		mp, cs, has, _ := c15MediaParse(cell.ct)
-		lk := "none"
+		// the model resolves the charset in ITS OWN WHATWG table; the harness only says what the IANA
+		// index answers (implemented / registered without an implementation / unknown name)
+		lk := "W:err"
 		if has {
-			if e := c15Lookup(cs); e != nil {
-				lk = "tbl" // which decoder it is does not matter to the selection
+			if e, err := ianaindex.MIME.Encoding(strings.ToLower(cs)); err == nil && e != nil {
+				lk = "W:ok"
+			} else if err == nil {
+				lk = "W:nil"
+				cnt.count("grid:charset-registered-but-unimplemented")
 			}
 		}
 		gridArg = append(gridArg, verifh.Hex(cell.ct)+"/"+verifh.Hex(cell.ae)+"/"+mp+"/"+lk)
@@ -134,7 +140,7 @@ func TestVerif_C15_cfg(t *testing.T) {
 		}
 		s.Case("c15cfg "+c15ProgStringNamed(p.ops)+" "+fmt.Sprint(p.use)+" "+grid, strings.Join(kinds, ","), ok, "", len(fam) > 1, human)
 	}
-	cnt.must(t, "programs:shape", "programs:random", "prog:request-by-a-clone", "prog:cloned-while-switched-off", "prog:cloned-with-filter-set",
+	cnt.must(t, "grid:charset-registered-but-unimplemented", "programs:shape", "programs:random", "prog:request-by-a-clone", "prog:cloned-while-switched-off", "prog:cloned-with-filter-set",
 		"prog:cloned-off-with-filter-then-switched-on", "prog:several-clones")
 	s.Finish()
 }
